@@ -110,6 +110,11 @@ pub const DT_BOUNDARY: [u64; 5] = [0, 59, 60, 61, 86_400];
 
 pub fn validator_addr(i: usize) -> String {
     // real bech32 is not needed for validator addresses (they are plain strings in the keeper)
+    // validator addresses are plain strings to the keeper: the second one is the first one in upper
+    // case (close, but a different validator; seed C16g)
+    if i == 1 {
+        return "VALOPER1".to_string();
+    }
     format!("valoper{}", i + 1)
 }
 
